@@ -99,7 +99,7 @@ class UdpNode(object):
         return out
 
 
-def check_send(total_len, mtu, obs, xfer_skip=0):
+def check_send(total_len, mtu, obs, xfer_skip=0, polls_ms=()):
     node = UdpNode(mtu)
     problems = []
     try:
@@ -107,9 +107,21 @@ def check_send(total_len, mtu, obs, xfer_skip=0):
         for skip in range(xfer_skip):
             node.agent._tx_id += 1
         node.call('send_bundle_data', dbus.ByteArray(bundle), dbus.Dictionary({'address': PEER[0], 'port': dbus.Int32(PEER[1])}, signature='sv'))
+        if polls_ms:
+            # other (non-transfer) messages of the agent go out on the same socket while the paced transfer is under way
+            import udpcl.config
+            from gi.repository import GLib
+            item = udpcl.config.PollConfig(address=PEER[0], port=PEER[1], interval_ms=60000)
+            with node.sim.as_node('U'):
+                for when in polls_ms:
+                    GLib.timeout_add(when, node.agent._poll, item, False)
         res = node.sim.run(400000)
         obs['sends'] += 1
         dgrams = node.sent_datagrams()
+        if polls_ms:
+            polls = [dg for dg in dgrams if dg[:1] == b'\xa2' and dg != bundle]
+            obs['poll_datagrams_during_transfer'] = obs.get('poll_datagrams_during_transfer', 0) + len(polls)
+            dgrams = [dg for dg in dgrams if dg not in polls]
         if res != 'quiescent':
             return None, [], bundle
         if node.sim.world.callback_errors:
@@ -322,6 +334,10 @@ def run_case(case):
                 problems, dgrams, _bundle = check_send(total, mtu, obs, xfer_skip=skip)
                 note(problems, 'send', dict(total=total, mtu=mtu, first_id=skip, datagrams=len(dgrams)), 'send|%d|%s|%d' % (total, mtu, skip),
                      nontrivial=len(dgrams) > 1)
+            if mtu is not None and mtu < total:
+                polls = (0, 1, 3, 10, 40, 200, 1000, 5000)
+                problems, dgrams, _bundle = check_send(total, mtu, obs, polls_ms=polls)
+                note(problems, 'send+polls', dict(total=total, mtu=mtu, datagrams=len(dgrams)), 'sendpoll|%d|%s' % (total, mtu), nontrivial=len(dgrams) > 1)
     elif kind == 'perm':
         bundle = make_bundle(rng.choice([60, 90, 200]), seq=1)
         while True:
